@@ -23,6 +23,23 @@ static long table_used = 0;
 static pthread_mutex_t mu = PTHREAD_MUTEX_INITIALIZER;
 static int next_tid = 1;
 
+/* The ledger's lock must not order the threads of the code under test for ThreadSanitizer: a happens-before edge through
+   this mutex would hide every race between two library calls that each allocate in between (which is all of them).  In a
+   TSan build the lock, and the table it protects, are therefore invisible to the race detector. */
+#if defined(__has_feature)
+#if __has_feature(thread_sanitizer)
+void AnnotateIgnoreSyncBegin(const char *f, int l); void AnnotateIgnoreSyncEnd(const char *f, int l);
+void AnnotateIgnoreReadsBegin(const char *f, int l); void AnnotateIgnoreReadsEnd(const char *f, int l);
+void AnnotateIgnoreWritesBegin(const char *f, int l); void AnnotateIgnoreWritesEnd(const char *f, int l);
+#define LEDGER_LOCK()   do { AnnotateIgnoreSyncBegin(__FILE__, __LINE__); AnnotateIgnoreReadsBegin(__FILE__, __LINE__); AnnotateIgnoreWritesBegin(__FILE__, __LINE__); pthread_mutex_lock(&mu); } while (0)
+#define LEDGER_UNLOCK() do { pthread_mutex_unlock(&mu); AnnotateIgnoreWritesEnd(__FILE__, __LINE__); AnnotateIgnoreReadsEnd(__FILE__, __LINE__); AnnotateIgnoreSyncEnd(__FILE__, __LINE__); } while (0)
+#endif
+#endif
+#ifndef LEDGER_LOCK
+#define LEDGER_LOCK()   pthread_mutex_lock(&mu)
+#define LEDGER_UNLOCK() pthread_mutex_unlock(&mu)
+#endif
+
 typedef struct {
     int tid;
     unsigned char fill;
@@ -40,9 +57,9 @@ static __thread tctx_t T;
 static tctx_t *ctx(void)
 {
     if (T.tid == 0) {
-        pthread_mutex_lock(&mu);
+        LEDGER_LOCK();
         T.tid = next_tid++;
-        pthread_mutex_unlock(&mu);
+        LEDGER_UNLOCK();
         T.fill = 0xA5;
     }
     return &T;
@@ -130,9 +147,9 @@ void *vf_malloc_at(size_t size, const char *func)
     void *p = malloc(size ? size : 1);
     if (!p) return NULL;
     memset(p, c->fill, size);
-    pthread_mutex_lock(&mu);
+    LEDGER_LOCK();
     insert(p, size, func, c->tid);
-    pthread_mutex_unlock(&mu);
+    LEDGER_UNLOCK();
     c->st.allocs++;
     if (is_expand) c->st.expand_allocs++;
     c->st.live_bytes += size;
@@ -146,11 +163,11 @@ void vf_free(void *p)
 {
     tctx_t *c = ctx();
     if (!p) return;              /* free(NULL) is what the production superlu_free does */
-    pthread_mutex_lock(&mu);
+    LEDGER_LOCK();
     slot_t *s = find(p);
     size_t size = 0;
     if (s) { size = s->size; s->p = (void *)1; }
-    pthread_mutex_unlock(&mu);
+    LEDGER_UNLOCK();
     if (!s) { c->st.bad_frees++; return; }
     c->st.frees++;
     if (c->st.live_bytes >= size) c->st.live_bytes -= size; else c->st.live_bytes = 0;
@@ -162,10 +179,10 @@ long vf_live_blocks(void)
 {
     tctx_t *c = ctx();
     long n = 0;
-    pthread_mutex_lock(&mu);
+    LEDGER_LOCK();
     for (unsigned i = 0; i < TABLE_SIZE; ++i)
         if (table[i].p && table[i].p != (void *)1 && table[i].tid == c->tid) ++n;
-    pthread_mutex_unlock(&mu);
+    LEDGER_UNLOCK();
     return n;
 }
 
@@ -174,7 +191,7 @@ void vf_describe_live(char *buf, size_t buflen, int max)
     tctx_t *c = ctx();
     size_t pos = 0; int n = 0;
     if (buflen) buf[0] = 0;
-    pthread_mutex_lock(&mu);
+    LEDGER_LOCK();
     for (unsigned i = 0; i < TABLE_SIZE && n < max; ++i)
         if (table[i].p && table[i].p != (void *)1 && table[i].tid == c->tid) {
             int w = snprintf(buf + pos, buflen - pos, "%s%s:%zu", n ? ", " : "",
@@ -182,21 +199,21 @@ void vf_describe_live(char *buf, size_t buflen, int max)
             if (w < 0 || (size_t)w >= buflen - pos) break;
             pos += (size_t)w; ++n;
         }
-    pthread_mutex_unlock(&mu);
+    LEDGER_UNLOCK();
 }
 
 long vf_purge(void)
 {
     tctx_t *c = ctx();
     long n = 0;
-    pthread_mutex_lock(&mu);
+    LEDGER_LOCK();
     for (unsigned i = 0; i < TABLE_SIZE; ++i)
         if (table[i].p && table[i].p != (void *)1 && table[i].tid == c->tid) {
             free(table[i].p);
             table[i].p = (void *)1;
             ++n;
         }
-    pthread_mutex_unlock(&mu);
+    LEDGER_UNLOCK();
     c->st.live_bytes = 0;
     return n;
 }
@@ -206,10 +223,10 @@ const vf_stats_t *vf_stats(void) { return &ctx()->st; }
 size_t vf_block_size(const void *p)
 {
     size_t r = (size_t)-1;
-    pthread_mutex_lock(&mu);
+    LEDGER_LOCK();
     slot_t *s = find(p);
     if (s) r = s->size;
-    pthread_mutex_unlock(&mu);
+    LEDGER_UNLOCK();
     return r;
 }
 
